@@ -181,19 +181,26 @@ func init() {
 			}
 		}
 		js = append(js, &Job{Pkg: pkgMain, Func: "VerifC07Main", Timeout: 5 * time.Minute})
+		// a pipeline target succeeded iff no stage failed hard: whole Schedule runs (thread mode) on three
+		// 3-stage graphs (independent stages, a chain, a fork); the obligation is C02's, attributed to C07
+		// when the native replay shows the run reporting success although a stage failed
+		for _, e := range []int64{0, 9, 3} {
+			js = append(js, &Job{Pkg: pkgScheduler, Func: "VerifSchedWhole", Args: []int64{3, e, 1}, Timeout: 30 * time.Minute, MaxSteps: 2000000000})
+		}
 		return js
 	}
-	register(&PropSpec{ID: "C07", Jobs: c07jobs, Harness: []string{"C06", "C07"},
+	register(&PropSpec{ID: "C07", Jobs: c07jobs, Harness: []string{"C06", "C07", "C01"}, AttributeByReplay: true,
 		Covers: []string{"C06.command-failed", "C06.succeeded", "C06.skipped", "C07.cli-failure", "C07.cli-success", "C07.cli-two-targets", "C07.main-exits-nonzero-on-failure", "C07.main-returns-normally-on-success"},
 		Bounds: map[string]interface{}{
-			"quick":    map[string]interface{}{"task level": c06bounds["quick"], "cli level": "argument vectors of 0..3 words, each a symbolic member of {t1, t2, p1, unknown, --}; every target's result symbolic; root action, `run`, `run task`; main with run() succeeding/failing"},
-			"thorough": map[string]interface{}{"task level": c06bounds["thorough"], "cli level": "argument vectors of 0..4 words"},
+			"quick":    map[string]interface{}{"task level": c06bounds["quick"], "cli level": "argument vectors of 0..3 words, each a symbolic member of {t1, t2, p1, unknown, --}; every target's result symbolic; root action, `run`, `run task`; main with run() succeeding/failing", "stage level": "whole runs of the real Scheduler (thread mode, preemption bound 1) on 3 independent stages, a chain and a fork with symbolic outcomes / allow_failure / conditions: the run reports an error iff a stage failed hard"},
+			"thorough": map[string]interface{}{"task level": c06bounds["thorough"], "cli level": "argument vectors of 0..4 words", "stage level": "same"},
 		},
-		Outside:     append([]string{"urfave/cli delivering the action's error as app.Run's result, flag parsing", "logrus.Fatal exiting with status 1 (its documented contract)", "the literal target name `pipeline`, which `run` skips by design", "stage level (a failing task fails the pipeline run) is decided by C02's obligation on Schedule's result"}, c06outside...),
+		Outside:     append([]string{"urfave/cli delivering the action's error as app.Run's result, flag parsing", "logrus.Fatal exiting with status 1 (its documented contract)", "the literal target name `pipeline`, which `run` skips by design", "stage level (a failing task fails the pipeline run): whole Schedule runs on three 3-stage graphs only (all graphs: C02)"}, c06outside...),
 		Assumptions: append([]string{"stubs: cli.Context.Args/NArg/Bool/StringSlice backed by the harness vector; runTask/runPipeline replaced by recording stand-ins with symbolic results; run() replaced in the main harness"}, c06assume...),
 		Replay: map[string]*ReplaySpec{
-			"VerifC06Task": {PkgDir: "pkg/runner", File: "C06_replay_test.go", Test: "TestVerifReplayC06"},
-			"*":            {PkgDir: "cmd/taskctl", File: "C07_cli_replay_test.go", Test: "TestVerifReplayC07"}}})
+			"VerifC06Task":    {PkgDir: "pkg/runner", File: "C06_replay_test.go", Test: "TestVerifReplayC06"},
+			"VerifSchedWhole": {PkgDir: "pkg/scheduler", File: "C01_replay_test.go", Test: "TestVerifReplaySched"},
+			"*":               {PkgDir: "cmd/taskctl", File: "C07_cli_replay_test.go", Test: "TestVerifReplayC07"}}})
 
 	c09jobs := func(tier string) []*Job {
 		var js []*Job
@@ -263,8 +270,8 @@ func init() {
 				js = append(js, &Job{Pkg: pkgScheduler, Func: "VerifSchedPass", Args: []int64{3, e, am}, Timeout: 30 * time.Minute, MaxSteps: 100000000})
 			}
 			pb := int64(1)
-			if tier == "thorough" {
-				pb = 2
+			if tier == "thorough" && e != 0 {
+				pb = 2 // (three independent stages with bound 2: 4 million schedules, over 30 minutes - stays at bound 1)
 			}
 			js = append(js, &Job{Pkg: pkgScheduler, Func: "VerifSchedWhole", Args: []int64{3, e, pb}, Timeout: 30 * time.Minute, MaxSteps: 2000000000})
 		}
@@ -284,7 +291,8 @@ func init() {
 		for ie := int64(0); ie < 64; ie++ {
 			js = append(js, &Job{Pkg: pkgScheduler, Func: "VerifSchedNested", Args: []int64{ie, 1, 1, 0}, Timeout: 30 * time.Minute, MaxSteps: 5000000000})
 			if tier == "thorough" {
-				for _, pd := range []int64{0, 3} {
+				// (the variant without outer dependencies, pd = 0, takes 10-30 minutes per inner graph: not registered)
+				for _, pd := range []int64{3} {
 					js = append(js, &Job{Pkg: pkgScheduler, Func: "VerifSchedNested", Args: []int64{ie, pd, 0, 0}, Timeout: 30 * time.Minute, MaxSteps: 5000000000})
 				}
 			}
@@ -296,21 +304,26 @@ func init() {
 			}
 			js = append(js, &Job{Pkg: pkgScheduler, Func: "VerifSchedCancel", Args: []int64{3, e, 2, 0, 1}, Timeout: 20 * time.Minute, MaxSteps: 2000000000})
 		}
+		// tasks that need the concurrency (a barrier between the tasks of stages eligible together)
+		for sh := int64(0); sh < 4; sh++ {
+			js = append(js, &Job{Pkg: pkgScheduler, Func: "VerifSchedBarrier", Args: []int64{sh, 1}, Timeout: 10 * time.Minute})
+		}
 		js = append(js, &Job{Pkg: pkgScheduler, Func: "VerifSchedWorker", Args: []int64{0}, Timeout: 5 * time.Minute})
 		js = append(js, &Job{Pkg: pkgScheduler, Func: "VerifSchedWorker", Args: []int64{1}, Timeout: 5 * time.Minute})
 		return js
 	}
 	schedBounds := map[string]interface{}{
-		"quick":    "every directed graph on 3 stages (64 edge sets over ordered pairs; the 25 acyclic ones are analysed, declaration order = visiting order so all orders are covered) and on 2 stages; per stage symbolic allow_failure, outcome, condition absent/true/false. (a) interference mode: ONE pass / the exit path of the real Schedule from an ARBITRARY state satisfying the invariant, worker interference (rely relation) at every atomic operation - covers runs of any length and every fine-grained interleaving; (b) the real worker closure for a task stage and a nested-pipeline stage against the rely relation; (c) thread mode: whole Schedule runs from the initial state, interleavings enumerated with preemption bound 1; (d) thread mode: an outer pipeline a->b, p(a) whose stage p is a nested pipeline over every 3-stage graph REUSING the names a, b, c, symbolic outcomes; (e) thread mode: cancelled runs on 5 graphs - a stage condition that cannot be evaluated (each stage), and Scheduler.Cancel from another thread at every visible point (preemption bound 1)",
-		"thorough": "same graphs; thread-mode cross-check with preemption bound 2; interference mode additionally on six 4-stage graphs (chain, diamond, fork, join, reversed chain, two independent pairs) with every in-flight set; nested pipelines with three stage-dependency variants",
+		"quick":    "every directed graph on 3 stages (64 edge sets over ordered pairs; the 25 acyclic ones are analysed, declaration order = visiting order so all orders are covered) and on 2 stages; per stage symbolic allow_failure, outcome, condition absent/true/false. (a) interference mode: ONE pass / the exit path of the real Schedule from an ARBITRARY state satisfying the invariant, worker interference (rely relation) at every atomic operation - covers runs of any length and every fine-grained interleaving; (b) the real worker closure for a task stage and a nested-pipeline stage against the rely relation; (c) thread mode: whole Schedule runs from the initial state, interleavings enumerated with preemption bound 1; (d) thread mode: an outer pipeline a->b, p(a) whose stage p is a nested pipeline over every 3-stage graph REUSING the names a, b, c, symbolic outcomes; (f) thread mode: four small pipelines whose tasks do not return before the tasks of the stages eligible together with them have started (stages carry env / variables containers as configuration-built stages do): the run must complete; (e) thread mode: cancelled runs on 5 graphs - a stage condition that cannot be evaluated (each stage), and Scheduler.Cancel from another thread at every visible point (preemption bound 1)",
+		"thorough": "same graphs; thread-mode cross-check with preemption bound 2 (bound 1 for three independent stages); interference mode additionally on six 4-stage graphs (chain, diamond, fork, join, reversed chain, two independent pairs) with every in-flight set; nested pipelines with a second stage-dependency variant",
 	}
 	schedOutside := []string{"more than 3 stages (a 4-stage graph did not finish within 20 minutes per graph in interference mode, nor in thread mode: not registered)", "nesting deeper than one level (the nested Schedule call is the same function; the worker harness checks that its result is propagated)", "cancellation is covered with a stub runner on 5 of the 25 graphs (the real TaskRunner side of cancellation is C12)", "wall-clock overlap: the 50 ms pause is the cut point / a deschedule", "the composition step obligations => property is a hand argument (DESIGN C01-C04); the thread-mode runs are its end-to-end cross-check"}
 	schedAssume := []string{"rely relation iStep/iMayStop for workers (validated against the real goroutine body by VerifSchedWorker)", "checkStageCondition stubbed: a stage's condition has a fixed truth value", "runner.Runner stubbed; tasks terminate", "sync/atomic, WaitGroup, go statements: engine intrinsics; sequential consistency at atomic operations", "map iteration order = insertion (declaration) order; all orders covered by enumerating edge sets over ordered pairs"}
 	schedReplay := map[string]*ReplaySpec{"*": {PkgDir: "pkg/scheduler", File: "C01_replay_test.go", Test: "TestVerifReplaySched"},
-		"VerifSchedNested": {PkgDir: "pkg/scheduler", File: "C01_replay_test.go", Test: "TestVerifReplaySchedNested"},
+		"VerifSchedNested":  {PkgDir: "pkg/scheduler", File: "C01_replay_test.go", Test: "TestVerifReplaySchedNested"},
+		"VerifSchedBarrier": {PkgDir: "pkg/scheduler", File: "C01_replay_test.go", Test: "TestVerifReplaySchedBarrier"},
 		"VerifSchedWorker": {PkgDir: "pkg/scheduler", File: "C01_replay_test.go", Test: "TestVerifReplaySchedWorker"}}
 	for _, id := range []string{"C01", "C02", "C03", "C04"} {
-		covers := []string{"C03.cancelled-run-returns", "C03.condition-error-cancels-the-run", "C01.nested-run-returns", "C01.acyclic-graph", "C01.launch", "C03.pass-reaches-the-pause", "C03.schedule-returns", "C01.worker-checked", "C03.whole-run-returns", "C04.all-eligible-started-in-one-pass"}
+		covers := []string{"C03.cancelled-run-returns", "C03.condition-error-cancels-the-run", "C01.nested-run-returns", "C01.acyclic-graph", "C01.launch", "C03.pass-reaches-the-pause", "C03.schedule-returns", "C01.worker-checked", "C03.whole-run-returns", "C04.all-eligible-started-in-one-pass", "C04.barrier-checked"}
 		register(&PropSpec{ID: id, Jobs: schedJobs, Harness: []string{"C01"}, AttributeByReplay: true, Covers: covers, Bounds: schedBounds, Outside: schedOutside, Assumptions: schedAssume, Replay: schedReplay})
 	}
 
@@ -332,6 +345,9 @@ func init() {
 			{Pkg: pkgScheduler, Func: "VerifC12Sched", Args: []int64{0, 1, 0}, Timeout: 12 * time.Minute, MaxSteps: 2000000000},
 			{Pkg: pkgScheduler, Func: "VerifC12Sched", Args: []int64{1, 1, 0}, Timeout: 12 * time.Minute, MaxSteps: 2000000000},
 			{Pkg: pkgScheduler, Func: "VerifC12Sched", Args: []int64{2, 1, 0}, Timeout: 12 * time.Minute, MaxSteps: 2000000000},
+			// a nested pipeline: cancelled from outside, and by the condition of a NESTED stage
+			{Pkg: pkgScheduler, Func: "VerifC12Sched", Args: []int64{3, 0, 0}, Timeout: 12 * time.Minute, MaxSteps: 2000000000},
+			{Pkg: pkgScheduler, Func: "VerifC12Sched", Args: []int64{3, 1, 0}, Timeout: 12 * time.Minute, MaxSteps: 2000000000},
 		}
 		if tier == "thorough" {
 			js = append(js, &Job{Pkg: pkgScheduler, Func: "VerifC12Sched", Args: []int64{1, 0, 0}, Timeout: 60 * time.Minute, MaxSteps: 20000000000},
@@ -344,7 +360,7 @@ func init() {
 	register(&PropSpec{ID: "C12", Jobs: c12jobs,
 		Covers: []string{"C12.all-threads-returned", "C12.a-command-was-interrupted", "C12.sched-checked", "C12.sched.a-running-command-was-interrupted"},
 		Bounds: map[string]interface{}{
-			"quick":    "0, 1 (preemption-unbounded), 2 (preemption bound 3) and 3 (bound 1) concurrent TaskRunner.Run calls (1-2 commands, one with a before hook) + one thread calling Cancel once or twice, and two threads calling Cancel concurrently while the run(s) wind down through an execution context's after command; every interleaving at visible operations (RWMutex, channel close/receive, context cancel, command start/finish); command outcomes symbolic, allow_failure of two tasks symbolic. Through the scheduler: pipelines of three stages (a, b after a, c | chain | three independent for the condition mode) with symbolic allow_failure per stage and task, run by the real Scheduler with the real TaskRunner, cancelled by another thread calling Scheduler.Cancel at any blocking point or by a stage condition that cannot be evaluated once commands run; preemption bound 0",
+			"quick":    "0, 1 (preemption-unbounded), 2 (preemption bound 3) and 3 (bound 1) concurrent TaskRunner.Run calls (1-2 commands, one with a before hook) + one thread calling Cancel once or twice, and two threads calling Cancel concurrently while the run(s) wind down through an execution context's after command; every interleaving at visible operations (RWMutex, channel close/receive, context cancel, command start/finish); command outcomes symbolic, allow_failure of two tasks symbolic. Through the scheduler: pipelines of three stages (a, b after a, c | chain | three independent for the condition mode | a nested pipeline {a, b} beside c, the failing condition on the nested b) with symbolic allow_failure per stage and task, run by the real Scheduler with the real TaskRunner, cancelled by another thread calling Scheduler.Cancel at any blocking point or by a stage condition that cannot be evaluated once commands run; preemption bound 0",
 			"thorough": "2 runs with preemption bound 4, 3 runs with bound 2; three independent stages cancelled from outside; the chain with preemption bound 1",
 		},
 		Outside:     []string{"that the interpreter stops a running command when its context is cancelled (mvdan DefaultExecHandler + the OS): assumed by the executor stub", "'within bounded time' is checked as absence of deadlock/livelock", "more than 3 concurrent runs / 3 stages"},
@@ -443,7 +459,7 @@ func init() {
 	register(&PropSpec{ID: "C11", Jobs: c11jobs,
 		Covers: []string{"C11.producer-succeeded", "C11.producer-failed", "C11.exec-checked"},
 		Bounds: map[string]interface{}{
-			"quick":    "producer with 2 commands x {no, 1, 2} variations, every executed command printing 0..2 (0..1 for 2 variations) arbitrary symbolic bytes and succeeding or failing, allow_failure symbolic; producer name of 0..3 symbolic printable-ASCII characters, with and without exportAs; a consumer task run afterwards by the same runner; with the REAL executor (VerifC11Exec): 2..3 commands each printing 0..2 arbitrary non-NUL bytes on stdout and optionally one on stderr, exportAs given or not, the consumer reads the exported name from the interpreter environment; the same under the prefixed output format with coloured output (VerifC11Ansi: each command prints one of four concrete texts with escape sequences)",
+			"quick":    "producer with 2 commands x {no, 1, 2} variations, every executed command printing 0..2 (0..1 for 2 variations) arbitrary symbolic non-NUL bytes and succeeding or failing, allow_failure symbolic; producer name of 0..3 symbolic printable-ASCII characters, with and without exportAs; a consumer task run afterwards by the same runner; with the REAL executor (VerifC11Exec): 2..3 commands each printing 0..2 arbitrary non-NUL bytes on stdout and optionally one on stderr, exportAs given or not, the consumer reads the exported name from the interpreter environment; the same under the prefixed output format with coloured output (VerifC11Ansi: each command prints one of four concrete texts with escape sequences)",
 			"thorough": "2 variations with 0..2 bytes per command, 3 variations, names of 4 characters",
 		},
 		Outside:     []string{"byte-exactness of bytes.Buffer and of the interpreter's writes (bytes.Buffer is modelled as string concatenation)", "non-ASCII task names, outputs longer than 2 bytes per command (64 KiB)", "that dependent stages run after the producer (C01)", "the claim is at wiring level: which writer / variable receives which text"},
@@ -515,7 +531,7 @@ func init() {
 		Assumptions: []string{"map iteration in insertion order (p1 before p2)", "stub runner: tasks succeed"},
 		Replay:      map[string]*ReplaySpec{"*": {PkgDir: "internal/config", File: "C18_replay_test.go", Test: "TestVerifReplayC18"}}})
 
-	register(&PropSpec{ID: "C15",
+	register(&PropSpec{ID: "C15", Harness: []string{"C15", "C17"},
 		Jobs: func(tier string) []*Job {
 			var js []*Job
 			for sh := int64(0); sh < 10; sh++ {
@@ -533,6 +549,13 @@ func init() {
 				js = append(js, &Job{Pkg: pkgConfig, Func: "VerifC15Grammar", Args: []int64{sh}, Timeout: 20 * time.Minute, MaxSteps: 500000000})
 			}
 			js = append(js, &Job{Pkg: pkgMain, Func: "VerifC15Draw", Timeout: 10 * time.Minute})
+			// import closures (files and a directory importing one another): loading ends
+			for p := int64(0); p < 9; p++ {
+				js = append(js, &Job{Pkg: pkgConfig, Func: "VerifC15ImportClosure", Args: []int64{2, p}, Timeout: 20 * time.Minute, MaxSteps: 2000000000})
+			}
+			for _, p := range []int64{4, 13, 22} {
+				js = append(js, &Job{Pkg: pkgConfig, Func: "VerifC15ImportClosure", Args: []int64{3, p}, Timeout: 20 * time.Minute, MaxSteps: 2000000000})
+			}
 			return js
 		},
 		Covers: []string{"C15.import-shape-loaded", "C15.import-shape-rejected-with-an-error", "C15.definition-built", "C15.odd-definition-rejected-with-an-error", "C15.env-file-read", "C15.env-file-rejected-with-an-error", "C15.grammar-built", "C15.grammar-rejected", "C15.draw-checked", "C15.draw.structure-rejected"},
@@ -540,10 +563,11 @@ func init() {
 			"quick":    "taskctl's OWN loading code on the shapes the parsers can hand it: (i) the value under `import` = null, string, int, bool, list of strings, list with an int / null / nested list, string-keyed map, interface-keyed map; (ii) a definition with a null task / context / stage / watcher entry, a task whose env_file is missing, `dir` on a pipeline-typed stage, a stage naming neither or both of task and pipeline, a task without command, a pipeline without stages, no tasks section; (ii') a grammar of definitions: task t2 in 6 shapes (null, empty, null variation, unknown context + empty lists, renamed with variations/condition/dir, sound) x context c2 null/empty/absent x pipeline p2 null/empty/sound x two stages of p1 each in 8 shapes (null, empty, task, task with name+depends_on+dir+env, pipeline with dir+condition, task AND pipeline, name only, self-reference) x watcher null / unknown task / odd lists / sound = 13 824 definitions, then the fields the list/show/graph/validate commands read are walked; (iii) env files of two lines over {A=1, A, A=1=2, =, empty, =x, # comment}, env file missing; (iv) the graph command: two pipelines of two stages each, every stage one of task / pipeline p1 / pipeline p2 / task AND p1 / task AND p2 (625 inclusion structures): whatever the real buildFromDefinition accepts is drawn by the real draw() of the graph command, which must return (the dot library is replaced by counting stubs). Any reachable panic (nil dereference, failed type assertion, index out of range) is a violation",
 			"thorough": "same",
 		},
-		Outside:     []string{"panics, hangs or errors INSIDE yaml.v2, go-toml, encoding/json, mapstructure, mergo, text/template: not encodable; arbitrary bytes, truncation, anchors, invalid UTF-8 are therefore outside", "the list / show / validate commands on the loaded configuration (text/template reflection; they read the fields walked in (ii') without recursion) and the rendering of the graph by emicklei/dot", "bounded time (the import closure's termination is C17)"},
+		Outside:     []string{"panics, hangs or errors INSIDE yaml.v2, go-toml, encoding/json, mapstructure, mergo, text/template: not encodable; arbitrary bytes, truncation, anchors, invalid UTF-8 are therefore outside", "the list / show / validate commands on the loaded configuration (text/template reflection; they read the fields walked in (ii') without recursion) and the rendering of the graph by emicklei/dot", "bounded time beyond the import closure: VerifC15ImportClosure re-runs C17's import harness (2 files with every import-count vector, 3 files for three vectors) and claims for C15 only that no file is read again and again"},
 		Assumptions: []string{"stubs: file system, Loader.readFile (returns the decoded shape), mergo.Merge, watch.NewWatcher, utils.ReadEnvFile (for (ii)), os.Open and bufio.Scanner (for (iii): the scanner yields the given lines)"},
 		Replay: map[string]*ReplaySpec{"*": {PkgDir: "internal/config", File: "C15_replay_test.go", Test: "TestVerifReplayC15"},
-			"VerifC15Draw": {PkgDir: "cmd/taskctl", File: "C15_draw_replay_test.go", Test: "TestVerifReplayC15Draw"}}})
+			"VerifC15Draw":          {PkgDir: "cmd/taskctl", File: "C15_draw_replay_test.go", Test: "TestVerifReplayC15Draw"},
+			"VerifC15ImportClosure": {PkgDir: "internal/config", File: "C17_replay_test.go", Test: "TestVerifReplayC17"}}})
 
 	register(&PropSpec{ID: "C20",
 		Jobs: func(tier string) []*Job {
